@@ -17,7 +17,7 @@ Inductive colref := CCol (c : Z) | CMod (c : Z).
 (* one entry of the INSERT value list *)
 Inductive vexpr := VRow (s : src) (c : Z) | VTrue | VDistinct (c : Z).
 (* one assignment of the UPDATE arm *)
-Inductive uexpr := UOp1 | USet (c : Z) (s : src) | UModOr (c : Z).
+Inductive uexpr := UOp1 | UOp2 | USet (c : Z) (s : src) | UModOr (c : Z) | UModTrue (c : Z).
 
 Record upsert := mkups {
   up_update : list uexpr;          (* SET ...                                             *)
@@ -65,7 +65,8 @@ Definition gen (g : tcfg) : tprog :=
     (gen_upsert g NEW OP_UPD (map (fun c => VDistinct (tc_name c)) (tnonpk g)) (gen_update_values g))
     (gen_validity g OLD)
     (gen_upsert g OLD OP_DEL (map (fun _ => VTrue) (tnonpk g))
-                (map (fun c => USet (tc_name c) OLD) (tcols g))).
+                ([UOp2] ++ map (fun c => USet (tc_name c) OLD) (tcols g) ++
+                 (if tg_tracker g then map (fun c => UModTrue (tc_name c)) (tnonpk g) else []))).
 
 (* ---- structural equality (for the tie with the parsed text) ---- *)
 Definition colref_eqb (a b : colref) : bool :=
@@ -76,8 +77,8 @@ Definition vexpr_eqb (a b : vexpr) : bool :=
   | VDistinct x, VDistinct y => x =? y | _, _ => false end.
 Definition uexpr_eqb (a b : uexpr) : bool :=
   match a, b with
-  | UOp1, UOp1 => true | USet x s, USet y t => (x =? y) && src_eqb s t
-  | UModOr x, UModOr y => x =? y | _, _ => false end.
+  | UOp1, UOp1 => true | UOp2, UOp2 => true | USet x s, USet y t => (x =? y) && src_eqb s t
+  | UModOr x, UModOr y => x =? y | UModTrue x, UModTrue y => x =? y | _, _ => false end.
 Definition crit_eqb (a b : Z * src) : bool := (fst a =? fst b) && src_eqb (snd a) (snd b).
 Definition upsert_eqb (a b : upsert) : bool :=
   list_eqb uexpr_eqb (up_update a) (up_update b) && list_eqb crit_eqb (up_crit a) (up_crit b) &&
@@ -123,6 +124,8 @@ Fixpoint set_assoc {A} (c : Z) (v : A) (l : list (Z * A)) : list (Z * A) :=
 Definition apply_uexpr (old new : prow) (r0 r : trow) (u : uexpr) : trow :=
   match u with
   | UOp1 => mktr (tr_tx r) (tr_end r) OP_UPD (tr_dat r) (tr_mod r)
+  | UOp2 => mktr (tr_tx r) (tr_end r) OP_DEL (tr_dat r) (tr_mod r)
+  | UModTrue c => mktr (tr_tx r) (tr_end r) (tr_op r) (tr_dat r) (set_assoc c true (tr_mod r))
   | USet c s => mktr (tr_tx r) (tr_end r) (tr_op r) (set_assoc c (pget (row_of s old new) c) (tr_dat r)) (tr_mod r)
   | UModOr c => mktr (tr_tx r) (tr_end r) (tr_op r) (tr_dat r)
                      (set_assoc c (mget r0 c || distinct (pget old c) (pget new c)) (tr_mod r))
@@ -157,9 +160,13 @@ Definition exec_upsert (u : upsert) (T : Z) (old new : prow) (t : ttable) : ttab
   then map (fun r => if hit r then fold_left (apply_uexpr old new r) (up_update u) r else r) t
   else t ++ [pair_insert (up_cols u) (up_vals u) old new (mktr T None (up_optype u) [] [])].
 
-(* UPDATE vt SET end = T WHERE tx = (SELECT MIN(tx) FROM vt WHERE end IS NULL AND crit) AND crit *)
+(* UPDATE vt SET end = T WHERE tx = (SELECT MIN(tx) FROM vt WHERE end IS NULL AND tx <> T AND crit) AND crit
+   (tx <> T since repair of F-C14-validity-self-close: the row an earlier event of this transaction wrote
+   is not a predecessor) *)
 Definition exec_validity (v : validity) (T : Z) (old new : prow) (t : ttable) : ttable :=
-  let open := filter (fun r => match tr_end r with None => crit_holds (va_crit v) old new r | Some _ => false end) t in
+  let open := filter (fun r => match tr_end r with
+                               | None => negb (tr_tx r =? T) && crit_holds (va_crit v) old new r
+                               | Some _ => false end) t in
   match map tr_tx open with
   | [] => t
   | x :: xs =>
